@@ -12,6 +12,8 @@ verus! {
 
 global size_of usize == 8;   // ASSUMED: 64-bit target
 
+//@INCLUDE prelude/std_extra.rs
+
 // ------------------------------------------------------------------ std items vstd lacks (ASSUMED)
 pub assume_specification<T: Copy>[ Option::<&T>::copied ](o: Option<&T>) -> (r: Option<T>)
     ensures r == (match o { Some(x) => Some(*x), None => None::<T> });
